@@ -1050,13 +1050,15 @@ func (r *transformingReader) prepareMessage() error {
 		return err
 	}
 	r.buffer = r.msg.sendBuffer()
-	if r.rw.op.serverEnveloper == nil {
-		r.envRemain = 0
-		return nil
-	}
+	// The limit applies to the re-encoded message whether or not the server
+	// protocol uses envelopes.
 	length := r.buffer.Len()
 	if limit := int(r.rw.op.methodConf.maxMsgBufferBytes); length > limit {
 		return bufferLimitError(int64(limit))
+	}
+	if r.rw.op.serverEnveloper == nil {
+		r.envRemain = 0
+		return nil
 	}
 	// Need to prefix the buffer with an envelope
 	env := envelope{
